@@ -51,7 +51,9 @@ CHECKS = {
             "dispatches exactly the queue head, posts land at back/front (also from handlers, applied in "
             "call order), unique event objects are dispatched at most once (inductive invariant Inv), "
             "complete_circuit returns only with an empty queue, and each operation refines an abstract deque. "
-            "Tie: queue, defer queue, dispatched list and call log compared after every operation.",
+            "Tie: queue, defer queue, dispatched list and call log compared after every operation. QUEUE_SIZE = None: the unbounded "
+            "semantics (Queue/Unbounded.lean) equals the bounded run at every capacity that is never reached, output by output "
+            "(C14_unbounded_is_large_cap(_trace), C14_unbounded_is_limit), nothing is ever evicted; driver capacity token U.",
             "§8 C14", NOTE_L1 + " collections.deque(maxlen) semantics are modelled, not verified."),
     "C15": ("Lean 4 invariant proofs + per-operation correspondence",
             "Theorems: recall returns the oldest deferred event and moves it to the back of the queue, returns "
@@ -108,7 +110,9 @@ CHECKS = {
             "with the model after every operation.", "§8 C08", NOTE_CONC),
     "C09": ("Lean 4 proof of placement per subscription kind + correspondence",
             "Theorems: lifo delivery to an active object's queue puts the event at the front, fifo delivery at the back, "
-            "for every prior queue content (generated tag lifoDeliver); witness for the earlier code.", "§8 C09", NOTE_CONC),
+            "for every prior queue content (generated tag lifoDeliver); witness for the earlier code. Any interleaving of atomic "
+            "front / back operations by any number of threads leaves deliveries in front (newest first) and posts at the back "
+            "(C09_race_layout); witness for a delivery split into test + operation.", "§8 C09", NOTE_CONC),
     "C13": ("Lean 4 invariant over all schedules and call sequences + schedule-replay correspondence",
             "Theorems: at most one live delivery thread per kind in every reachable state for any client programs; "
             "is_alive() reports exactly that both run; start keeps live threads and replaces dead ones; stop's joins "
@@ -200,7 +204,11 @@ CHECKS = {
             "change another's reads; witness for the earlier shared storage.", "§8 C29", NOTE_L1),
     "C30": ("Lean 4 invariant proof over all schedules and any number of threads + replay and bytecode-granularity search",
             "Theorems: at most one object is ever constructed, every returned reference is that object, quiescent states "
-            "have all threads returned; witness for the unlocked code.", "§8 C30", NOTE_CONC),
+            "have all threads returned; witness for the unlocked code. Model Conc.SingleInit (constructors that refuse some requests, "
+            "several requests per thread): every returned object is the one initialised object, nobody gets None, failed objects are "
+            "never cached or returned, every request finishes, a later request constructs; witnesses for publish-before-initialise; "
+            "tied step by step (one step per shared access, program counter compared before every step; generated tag "
+            "singletonPublishesEarly).", "§8 C30", NOTE_CONC),
     "C32": ("Lean 4 proofs about a character-level model of splitlines/strip/the timestamp pattern + string correspondence",
             "Theorems: the matcher removes the timestamp of every trace line (any padding), multi-line traces strip to "
             "their bodies whatever timestamps / blank lines / surrounding whitespace, a single line likewise (generated "
